@@ -69,6 +69,8 @@ structure Drained (op : Nat) (c0 : SState) (s' : St) (io' : Io) : Prop where
     s'.streamState = .processing ∧ s'.lastBytesBits = 0 ∧ (s'.lastFlushPos = s'.inputPos ∨ fastMode s'.params)
   finishDone : op = 2 → c0 = .processing → s'.streamState = .finished
   notProcessing : op ≠ 0 → c0 ≠ .processing → s'.streamState = c0 ∨ (c0 = .flushRequested ∧ s'.streamState = .processing)
+  reflush : c0 = .flushRequested →
+    s'.streamState = .processing ∧ s'.lastBytesBits = 0 ∧ (s'.lastFlushPos = s'.inputPos ∨ fastMode s'.params)
 
 /-- from the loop-exit facts of either loop -/
 theorem drained_of_exit {op : Nat} {c0 : SState} {s1 : St} {io' : Io} (hI1 : Inv s1)
@@ -85,7 +87,18 @@ theorem drained_of_exit {op : Nat} {c0 : SState} {s1 : St} {io' : Io} (hI1 : Inv
     by_cases hpr : s1.streamState = .processing
     · exact (f4 hpr).2
     · exact hnp hpr
-  refine ⟨hcons, ?_, ?_, ?_⟩
+  refine ⟨hcons, ?_, ?_, ?_, ?_⟩
+  rotate_left 3
+  · intro hc0
+    rcases st with h | ⟨h, _⟩
+    · rw [hc0] at h
+      refine ⟨by rw [hst, h]; simp [hp], ?_, ?_⟩
+      · rw [k10]
+        by_cases hz : s1.lastBytesBits = 0
+        · exact hz
+        · exact absurd ⟨h, hz⟩ f2
+      · rw [k5, k2, k1]; exact hI1.flushLf h
+    · rw [hc0] at h; cases h
   · intro h1 hc0
     rcases st with h | ⟨_, _, h⟩
     · rw [hc0] at h; have := (f4 h).1; omega
